@@ -399,3 +399,140 @@ Proof.
         rewrite Frel in Hin'. congruence.
   - exact Hnl.
 Qed.
+
+(* ---------- the whole link ---------- *)
+Lemma res_img_ext w p L1 L2 : (forall n, L1 n = L2 n) -> res_img w p L1 = res_img w p L2.
+Proof. intro H. unfold res_img. destruct w; [|reflexivity]. destruct p; [|reflexivity]. rewrite H. reflexivity. Qed.
+Lemma res_pend_ext p L1 L2 : (forall n, L1 n = L2 n) -> res_pend p L1 = res_pend p L2.
+Proof. intro H. unfold res_pend. destruct p; [|reflexivity]. rewrite H. reflexivity. Qed.
+
+Lemma nlines_nonneg o : 0 <= nlines o.
+Proof.
+  unfold nlines. destruct (o_sym o) as [st|]; [|lia]. destruct (st_debug st) as [d|]; [|lia].
+  pose proof (count_lines_pos (ds_src d)). lia.
+Qed.
+
+(* one side without symbol table: the other side's table is kept as is *)
+Lemma vlink_nosym_r a b : ViewInv a -> (forall n, v_lbl b n = None) -> (forall x, v_pend b x = None) ->
+  veq (mkView (fun x => first_of (v_img a x) (v_img b x)) (v_lbl a) (v_pend a)) (vlink a b).
+Proof.
+  intros Ha Hl Hp. repeat split; intros; cbn.
+  - rewrite Hp, first_of_none_r. destruct (first_of (v_img a a0) (v_img b a0)); [|reflexivity].
+    destruct (v_pend a a0) as [n|] eqn:E; [|reflexivity].
+    rewrite Hl, lmerge_none_r, (pend_external _ _ _ Ha E). reflexivity.
+  - rewrite Hl, lmerge_none_r. reflexivity.
+  - rewrite Hp, first_of_none_r. destruct (v_pend a a0) as [n|] eqn:E; [|reflexivity].
+    rewrite Hl, lmerge_none_r, (pend_external _ _ _ Ha E). reflexivity.
+Qed.
+Lemma vlink_nosym_l a b : ViewInv b -> (forall n, v_lbl a n = None) -> (forall x, v_pend a x = None) ->
+  veq (mkView (fun x => first_of (v_img a x) (v_img b x)) (v_lbl b) (v_pend b)) (vlink a b).
+Proof.
+  intros Hb Hl Hp. repeat split; intros; cbn.
+  - rewrite Hp. cbn. destruct (first_of (v_img a a0) (v_img b a0)); [|reflexivity].
+    destruct (v_pend b a0) as [n|] eqn:E; [|reflexivity].
+    rewrite Hl. cbn. rewrite (pend_external _ _ _ Hb E). reflexivity.
+  - rewrite Hl. reflexivity.
+  - rewrite Hp. cbn. destruct (v_pend b a0) as [n|] eqn:E; [|reflexivity].
+    rewrite Hl. cbn. rewrite (pend_external _ _ _ Hb E). reflexivity.
+Qed.
+
+Theorem link_ok a b : ObjInv a -> ObjInv b -> LinesFit a b -> Linkable (view_of a) (view_of b) ->
+  exists r, link a b = LOk r /\ veq (view_of r) (vlink (view_of a) (view_of b)) /\ ObjInv r /\
+            nlines r <= nlines a + nlines b.
+Proof.
+  intros Ia Ib Hfit (L1 & L2).
+  pose proof (objinv_blocks _ Ia) as Ha. pose proof (objinv_blocks _ Ib) as Hb.
+  assert (Hd : forall addr, img_blocks (o_blocks a) addr = None \/ img_blocks (o_blocks b) addr = None).
+  { intro addr. specialize (L1 addr). cbn in L1. rewrite !img_at_blocks in L1. exact L1. }
+  destruct (merge_blocks_ok _ _ Ha Hb Hd) as (bs & E & Hs & Hin).
+  pose proof (adj_check_of_chain 0 bs (Z.le_refl 0) Hs) as Hadj.
+  pose proof (merged_img _ _ _ Ha Hb Hs Hin) as Img.
+  assert (Ca : forall x, covered (o_blocks a) x = true -> covered bs x = true).
+  { intros x. unfold covered. rewrite Img. destruct (img_blocks (o_blocks a) x); [reflexivity|discriminate]. }
+  assert (Cb : forall x, covered (o_blocks b) x = true -> covered bs x = true).
+  { intros x. unfold covered. rewrite Img. destruct (img_blocks (o_blocks a) x); [reflexivity|]. cbn. auto. }
+  assert (Cd : forall x, covered (o_blocks a) x = false \/ covered (o_blocks b) x = false).
+  { intro x. unfold covered. destruct (Hd x) as [K|K]; rewrite K; auto. }
+  pose proof (objinv_viewinv _ Ia) as Va. pose proof (objinv_viewinv _ Ib) as Vb.
+  unfold link. rewrite E, Hadj.
+  destruct (o_sym a) as [sa|] eqn:Ea, (o_sym b) as [sb|] eqn:Eb.
+  - (* both symbol tables *)
+    pose proof (objinv_sym _ _ Ia Ea) as Sa. pose proof (objinv_sym _ _ Ib Eb) as Sb.
+    destruct (link_sym_ok bs (o_blocks a) (o_blocks b) sa sb Hs Ca Cb Cd Sa Sb) as (bs' & st' & R1 & R2 & R3 & R4 & R5 & R6 & R7).
+    { intros n ad bd Ha' Hb' Xa Xb. apply (L2 n); cbn; rewrite lbl_at_lookup.
+      - rewrite Ea, Ha'. unfold fsym. cbn. rewrite Xa. reflexivity.
+      - rewrite Eb, Hb'. unfold fsym. cbn. rewrite Xb. reflexivity. }
+    { unfold debug_fit. unfold LinesFit, nlines in Hfit. rewrite Ea, Eb in Hfit.
+      destruct (st_debug sa), (st_debug sb); try exact Logic.I. exact Hfit. }
+    exists (mkObj bs' (Some st')). split; [exact R1|]. split; [|split].
+    + repeat split; intros.
+      * rewrite vlink_img_eq. cbn [v_img v_pend v_lbl view_of]. rewrite !img_at_blocks. cbn [o_blocks].
+        rewrite R6, Img, !pend_at_find, Ea, Eb. apply res_img_ext. intro n. rewrite !lbl_at_lookup, Ea, Eb. reflexivity.
+      * cbn [v_lbl view_of vlink]. rewrite !lbl_at_lookup. cbn [o_sym]. rewrite Ea, Eb. apply R4.
+      * rewrite vlink_pend_eq. cbn [v_img v_pend v_lbl view_of]. rewrite !pend_at_find. cbn [o_sym]. rewrite Ea, Eb, R5.
+        apply res_pend_ext. intro n. rewrite !lbl_at_lookup, Ea, Eb. reflexivity.
+    + apply objinv_intro; [exact R2|]. intros st K. inversion K; subst. exact R3.
+    + unfold nlines. cbn [o_sym]. rewrite Ea, Eb. exact R7.
+  - (* only a has a symbol table *)
+    exists (mkObj bs (Some sa)). split; [reflexivity|]. split; [|split].
+    + eapply veq_trans; [|apply (vlink_nosym_r _ _ Va)].
+      * repeat split; intros; cbn [v_img v_lbl v_pend view_of].
+        -- rewrite !img_at_blocks. cbn [o_blocks]. apply Img.
+        -- rewrite !lbl_at_lookup. cbn [o_sym]. rewrite Ea. reflexivity.
+        -- rewrite !pend_at_find. cbn [o_sym]. rewrite Ea. reflexivity.
+      * intro n. cbn [v_img v_lbl v_pend view_of]. rewrite lbl_at_lookup, Eb. reflexivity.
+      * intro x. cbn [v_img v_lbl v_pend view_of]. rewrite pend_at_find, Eb. reflexivity.
+    + apply objinv_intro; [exact Hs|]. intros st K. inversion K; subst. eapply syminv_mono; [exact Ca|]. apply objinv_sym; assumption.
+    + unfold nlines at 1. cbn [o_sym]. unfold nlines at 1. rewrite Ea. pose proof (nlines_nonneg b). lia.
+  - (* only b has a symbol table *)
+    exists (mkObj bs (Some sb)). split; [reflexivity|]. split; [|split].
+    + eapply veq_trans; [|apply (vlink_nosym_l _ _ Vb)].
+      * repeat split; intros; cbn [v_img v_lbl v_pend view_of].
+        -- rewrite !img_at_blocks. cbn [o_blocks]. apply Img.
+        -- rewrite !lbl_at_lookup. cbn [o_sym]. rewrite Eb. reflexivity.
+        -- rewrite !pend_at_find. cbn [o_sym]. rewrite Eb. reflexivity.
+      * intro n. cbn [v_img v_lbl v_pend view_of]. rewrite lbl_at_lookup, Ea. reflexivity.
+      * intro x. cbn [v_img v_lbl v_pend view_of]. rewrite pend_at_find, Ea. reflexivity.
+    + apply objinv_intro; [exact Hs|]. intros st K. inversion K; subst. eapply syminv_mono; [exact Cb|]. apply objinv_sym; assumption.
+    + unfold nlines at 1. cbn [o_sym]. unfold nlines at 2. rewrite Eb. pose proof (nlines_nonneg a). lia.
+  - (* no symbol table *)
+    exists (mkObj bs None). split; [reflexivity|]. split; [|split].
+    + eapply veq_trans; [|apply (vlink_nosym_r _ _ Va)].
+      * repeat split; intros; cbn [v_img v_lbl v_pend view_of].
+        -- rewrite !img_at_blocks. cbn [o_blocks]. apply Img.
+        -- rewrite !lbl_at_lookup. cbn [o_sym]. rewrite Ea. reflexivity.
+        -- rewrite !pend_at_find. cbn [o_sym]. rewrite Ea. reflexivity.
+      * intro n. cbn [v_img v_lbl v_pend view_of]. rewrite lbl_at_lookup, Eb. reflexivity.
+      * intro x. cbn [v_img v_lbl v_pend view_of]. rewrite pend_at_find, Eb. reflexivity.
+    + apply objinv_intro; [exact Hs|]. intros st K. discriminate.
+    + unfold nlines at 1. cbn [o_sym]. pose proof (nlines_nonneg a). pose proof (nlines_nonneg b). lia.
+Qed.
+
+Theorem link_ok_inv a b r : ObjInv a -> ObjInv b -> link a b = LOk r -> Linkable (view_of a) (view_of b).
+Proof.
+  intros Ia Ib H.
+  pose proof (objinv_blocks _ Ia) as Ha. pose proof (objinv_blocks _ Ib) as Hb.
+  unfold link in H.
+  destruct (insert_blocks (o_blocks b) (o_blocks a)) as [bs|] eqn:E; [|discriminate].
+  destruct (adj_check bs) eqn:Hadj; try discriminate.
+  destruct (merge_blocks_inv _ _ _ Ha Hb E Hadj) as (Hs & Hd).
+  split.
+  - intro addr. cbn. rewrite !img_at_blocks. apply Hd.
+  - intros n x y. cbn. rewrite !lbl_at_lookup.
+    destruct (o_sym a) as [sa|] eqn:Ea; [|discriminate]. destruct (o_sym b) as [sb|] eqn:Eb; [|discriminate].
+    pose proof (objinv_sym _ _ Ib Eb) as [B1 B2 B3 B4 B5].
+    unfold link_sym in H.
+    destruct (match st_debug sa, st_debug sb with
+              | Some da, Some db => match debug_link da db with Some d => Some (Some d) | None => None end
+              | Some da, None => Some (Some da)
+              | None, x => Some x end) as [dbg|]; [|discriminate].
+    match type of H with context [merge_labels ?bl ?al ?rel ?q] => destruct (merge_labels bl al rel q) as [L R Q| |] eqn:EM end; try discriminate.
+    match type of EM with merge_labels (map _ ?lb) _ _ _ = _ => fold (shifted (match st_debug sa, st_debug sb with Some da, Some _ => byte_len (ds_src da) + 1 | _, _ => 0 end) lb) in EM end.
+    destruct (merge_labels_ok _ (eq_ind_r (fun l => NoDup l) B1 (keys_shift _ _)) _ _ _ _ _ _ EM) as (_ & _ & _ & I5 & _).
+    destruct (lookup n (st_labels sa)) as [ad|] eqn:La; [|discriminate].
+    destruct (lookup n (st_labels sb)) as [bd|] eqn:Lb; [|discriminate].
+    unfold fsym. cbn. intros Ka Kb.
+    assert (Xa : sd_external ad = false) by congruence. assert (Xb : sd_external bd = false) by congruence.
+    assert (Ex : x = sd_addr ad) by congruence. assert (Ey : y = sd_addr bd) by congruence. subst x y.
+    eapply (I5 n ad (shift_sym _ bd) La); [rewrite lookup_shift, Lb; reflexivity|exact Xa|exact Xb].
+Qed.
